@@ -16,9 +16,9 @@ CLAIMS = {
     'C08': claim('Time add/sub of 6 units for all u32 counts, Time+-Time, Time+-Duration, constructors, From<DateTime>: result in [0, 24h), value = (t +- amount) mod 24h, offset kept.', '3/C08'),
     'C09': claim('10 setters and 9 clears on DateTime (all offsets, two-day margin at the range ends), Date and Time: the result is characterised completely in local time (edited local day / time of day, everything else equal), Err exactly for invalid values.', '3/C09'),
     'C10': claim('set_offset keeps the instant, getters read the shifted instant, as_offset keeps fields and moves the instant, Offset constructors/resolve_hms, Time variants, for all instants (one-day margin) x all offsets.', '3/C10'),
-    'C11': claim('REDUCED scope (stated): for every documented symbol and width (112 one-symbol patterns), format_date_part / format_time_part return the documented renderer applied to the documented value, '
+    'C11': claim('REDUCED scope (stated): for every documented symbol and width (113 one-symbol patterns), format_date_part / format_time_part return the documented renderer applied to the documented value, '
                  'for all days / all times of day x all offsets -- strings compared in a free term algebra over the leaf renderers (zero_padded, ordinal, table literals, format! templates); the documentation table is transcribed as a second implementation in props/. '
-                 'Decides value-dependent behaviour (12/0/24 o\'clock, noon/midnight, week, quarter, sub-second truncation, zone h/m/s split, sign). NOT decided: the tokenizer, concatenation, literals/quoting, the yy field, and that std prints digits correctly.', '3/C11',
+                 'Decides value-dependent behaviour (12/0/24 o\'clock, noon/midnight, week, quarter, sub-second truncation, zone h/m/s split, sign). `yy` (digit surgery on year.to_string(): String::len, [len-2..], parse) is decided with decimal-suffix string models: year mod 100 in two digits for years >= 1, returns without panic for every day (the table gives no BC example). NOT decided: the tokenizer, concatenation, literals/quoting, and that std prints digits correctly.', '3/C11',
                  technique='MIR symbolic execution with String results as terms -> SMT vs a transcribed documentation table; native replay'),
     'C13': claim('READ side only: DateTime::parse_rfc3339 is executed from MIR on bounded symbolic strings (every byte symbolic) and compared with a reference reader written from the RFC 3339 ABNF: '
                  'one obligation per shape (0..=21 fraction digits quick / 0..=25 thorough, Z or numeric offset; all digits symbolic): grammatical and in range => exactly that instant, offset and truncated fraction; out-of-range field => Err. '
@@ -40,7 +40,7 @@ CLAIMS = {
                  'version 2/3 files with ~75 footer templates (valid, hostile: missing parts, oversized numbers, NUL, non-UTF-8, stray bytes) and every single-byte ASCII substitution / insertion / deletion of base templates, short all-free footers: the reader returns (Ok or Err), never panics, table / fixed-rule lookups succeed for every i64 timestamp, and every accepted alternating rule has fields in the validated ranges. '
                  'Lookup half: for EVERY rule the reader can accept (those ranges) x every rule time x every timestamp of the DateTime range the rule lookup returns, except the listed known finding (first/last representable year).', '0.8 (C19)',
                  technique='MIR symbolic execution with a bounded byte-string model, symbolic-length slices/Vec, contracts for calendar kernels -> SMT; reader post-condition + lookup pre-condition composition; native replay'),
-    'C15': claim('from_ymdhms/from_hms/from_seconds/from_nanos/Offset constructors/set_*: Ok exactly for valid arguments with the oracle value; stated ranges exclude the rejected value and contain every accepted one (relational query), over the full parameter domains.', '3/C15'),
+    'C15': claim('from_ymdhms/from_hms/from_seconds/from_nanos/Offset constructors/set_*: Ok exactly for valid arguments with the oracle value; DateTime date AND time setters under any offset up to the first/last representable day (Err(OutOfRange) exactly when the edited local value is not a representable instant, never a panic); stated ranges exclude the rejected value and contain every accepted one (relational query), over the full parameter domains.', '3/C15'),
 }
 NOT_APPLICABLE = {
     'C12': 'parse(format(v, p), p): both directions run through the String/Vec<String> tokenizer and char-level consumers, out of reach of CBMC (memory) and of the MIR engine (no model of alloc::string at that scale); deciding it on concrete patterns and values would be enumeration, not solving.',
